@@ -28,9 +28,48 @@ func c02UseNamespace(c *core.Ctx) {
 	}
 	param := f.Type.Params.List[0].Names[0]
 	emptyKey := "eq:" + f.Render(param) + `==""`
+	// the parameter and single-definition local copies of it (`name := ns`)
+	d := c02NewDefs(f)
+	holder := map[types.Object]bool{f.Info.Defs[param]: true}
+	ast.Inspect(f.Body, func(n ast.Node) bool {
+		if id, ok := n.(*ast.Ident); ok {
+			if o := f.Info.Defs[id]; o != nil && d.rootObj(id) == f.Info.Defs[param] {
+				holder[o] = true
+			}
+		}
+		return true
+	})
+	isHolder := func(e ast.Expr) bool { o := c02Obj(f, e); return o != nil && holder[o] }
+	isDefault := func(e ast.Expr) bool {
+		// the default-namespace constant by value (whatever it is called)
+		dflt := f.Pkg.Types.Scope().Lookup("DefaultNamespace")
+		tv, ok := f.Info.Types[e]
+		if !ok || tv.Value == nil || dflt == nil {
+			return false
+		}
+		cst, ok := dflt.(*types.Const)
+		return ok && cst.Val().ExactString() == tv.Value.ExactString()
+	}
 	res := analyze(c, f, flow.Config{NoHavoc: true, OnNode: func(st *flow.State, n ast.Node) {
 		as, ok := n.(*ast.AssignStmt)
 		if !ok || len(as.Lhs) != 1 || len(as.Rhs) != 1 {
+			return
+		}
+		// `ns = DefaultNamespace` on the parameter (or a local copy of it): from here on the
+		// variable holds the default, not the argument
+		if id, ok := ast.Unparen(as.Lhs[0]).(*ast.Ident); ok && holder[c02Obj(f, id)] {
+			r := ast.Unparen(as.Rhs[0])
+			switch {
+			case isDefault(r):
+				st.Set("ev:param:defaulted", flow.True)
+				if st.Is(emptyKey, flow.True) {
+					st.Set("ev:param:defaultedWhenEmpty", flow.True)
+				}
+			case isHolder(r):
+				// copy of the argument: nothing changes
+			default:
+				st.Set("ev:param:other", flow.True)
+			}
 			return
 		}
 		sel, ok := ast.Unparen(as.Lhs[0]).(*ast.SelectorExpr)
@@ -43,21 +82,19 @@ func c02UseNamespace(c *core.Ctx) {
 		st.Set("ev:ns:param", flow.Unknown)
 		st.Set("ev:ns:default", flow.Unknown)
 		r := ast.Unparen(as.Rhs[0])
-		if id, ok := r.(*ast.Ident); ok && f.Info.Uses[id] == f.Info.Defs[param] {
-			// the parameter itself — unless it was overwritten with the default before
-			if st.Is("ev:param:defaulted", flow.True) {
+		if isHolder(r) {
+			// the parameter (or its copy) — unless it was overwritten before
+			switch {
+			case st.Is("ev:param:other", flow.True):
+			case st.Is("ev:param:defaulted", flow.True):
 				st.Set("ev:ns:default", flow.True)
-			} else {
+			default:
 				st.Set("ev:ns:param", flow.True)
 			}
 			return
 		}
-		if tv, ok := f.Info.Types[r]; ok && tv.Value != nil {
-			if id, ok := r.(*ast.Ident); ok {
-				if cst, ok := f.Info.Uses[id].(*types.Const); ok && cst.Name() == "DefaultNamespace" {
-					st.Set("ev:ns:default", flow.True)
-				}
-			}
+		if isDefault(r) {
+			st.Set("ev:ns:default", flow.True)
 		}
 	}})
 	if res == nil {
@@ -73,7 +110,18 @@ func c02UseNamespace(c *core.Ctx) {
 		}
 		n++
 		st := ex.State
-		switch st.Get(emptyKey) {
+		emp := st.Get(emptyKey)
+		if emp == flow.Unknown && st.Is("ev:param:defaulted", flow.True) {
+			// the parameter was overwritten with the default: that is the empty case only if the
+			// overwrite happened under ns == ""
+			if st.Is("ev:param:defaultedWhenEmpty", flow.True) {
+				emp = flow.True
+			} else {
+				bad, why = st, "the namespace argument is replaced by the default namespace without having been found empty: a node's configured namespace is ignored"
+				continue
+			}
+		}
+		switch emp {
 		case flow.True:
 			if !st.Is("ev:ns:default", flow.True) {
 				bad, why = st, "an empty namespace argument does not select the default namespace: the node runs in whatever namespace the previous node left active"
